@@ -289,11 +289,16 @@ impl<'a> Parser<'a> {
             "null" => Ok(Value::Null),
             "true" => Ok(Value::Bool(true)),
             "false" => Ok(Value::Bool(false)),
-            number => Ok(Value::Number(
-                number
-                    .parse()
-                    .map_err(|_| self.traceback(ParseError::InvalidToken))?,
-            )),
+            number => {
+                // `f64::from_str` accepts more than the JSON grammar (`NaN`, `inf`, `+1`, `01`, `.5`, `1.`), so check it first
+                quiet_assert(is_number(number), self.traceback(ParseError::InvalidToken))?;
+
+                Ok(Value::Number(
+                    number
+                        .parse()
+                        .map_err(|_| self.traceback(ParseError::InvalidToken))?,
+                ))
+            }
         }
     }
 
@@ -340,6 +345,58 @@ fn quiet_assert(condition: bool, error: TracebackError) -> Result<(), TracebackE
 /// Check whether a character is whitespace according to the specification.
 fn is_whitespace(c: impl Borrow<char>) -> bool {
     matches!(c.borrow(), ' ' | '\t' | '\n' | '\r')
+}
+
+/// Check whether a literal is a number according to the specification, i.e. `[ "-" ] int [ frac ] [ exp ]`.
+fn is_number(s: &str) -> bool {
+    let mut chars = s.chars().peekable();
+
+    if chars.peek() == Some(&'-') {
+        chars.next();
+    }
+
+    // int = "0" / ( digit1-9 *DIGIT )
+    match chars.next() {
+        Some('0') => (),
+        Some('1'..='9') => {
+            while chars.peek().map_or(false, char::is_ascii_digit) {
+                chars.next();
+            }
+        }
+        _ => return false,
+    }
+
+    // frac = "." 1*DIGIT
+    if chars.peek() == Some(&'.') {
+        chars.next();
+
+        if !chars.next().map_or(false, |c| c.is_ascii_digit()) {
+            return false;
+        }
+
+        while chars.peek().map_or(false, char::is_ascii_digit) {
+            chars.next();
+        }
+    }
+
+    // exp = ( "e" / "E" ) [ "-" / "+" ] 1*DIGIT
+    if matches!(chars.peek(), Some('e') | Some('E')) {
+        chars.next();
+
+        if matches!(chars.peek(), Some('+') | Some('-')) {
+            chars.next();
+        }
+
+        if !chars.next().map_or(false, |c| c.is_ascii_digit()) {
+            return false;
+        }
+
+        while chars.peek().map_or(false, char::is_ascii_digit) {
+            chars.next();
+        }
+    }
+
+    chars.next().is_none()
 }
 
 /// Check whether the character is reserved.
